@@ -336,13 +336,14 @@ class RustFile:
                 return it
         return None
 
-    def find_const(self, name, ctx=None):
+    def find_const(self, name, ctx=None, accept=None):
         for it in self.items():
             if ctx and it.kind in ("impl", "trait") and norm(it.header) == norm(ctx):
                 for c in getattr(it, "children", []):
-                    if c.kind == "const" and c.name == name:
+                    if c.kind == "const" and c.name == name and (accept is None or accept(c)):
                         return c
-            if not ctx and it.kind in ("const", "static") and it.name == name and not it.is_test:
+            if not ctx and it.kind in ("const", "static") and it.name == name and not it.is_test \
+                    and (accept is None or accept(it)):
                 return it
         return None
 
